@@ -26,7 +26,7 @@ ASSUMPTIONS = [
     "label attribute VALUES (PRN/CELLPRN/CELLSIG) are C09's subject; here only their presence is required",
     "attribute ORDER is not compared, only the name -> value mapping",
 ]
-GATES = ["compared", "flip_checked", "tail_checked", "identities"]
+GATES = ["compared", "flip_checked", "tail_checked", "identities", "pinned_checked"]
 
 
 def parse(payload):
@@ -214,6 +214,18 @@ def run(ctx):
         if msm:
             for _ in range(6 if ctx.quick else 200):
                 wide_mask_case(ctx, identity, rng.getrandbits(48))
+        # second, table-independent oracle where the standard's field-level layout is pinned (vf.stdlayout):
+        # representation (unsigned / two's complement / sign-magnitude / character) and resolution per field
+        from vf import stdlayout
+
+        if identity in stdlayout.LAYOUT:
+            from vf.checks import c10
+
+            for j in range(12 if ctx.quick else 300):
+                c10.pinned_case(ctx, identity, refmodel.VSTRATS[j % len(refmodel.VSTRATS)],
+                                ("zero", "one", "small", "max")[j % 4],
+                                refmodel.MSTRATS[j % len(refmodel.MSTRATS)] if msm else "random",
+                                rng.getrandbits(48), mech="standard-representation-mismatch")
         # definition coverage (boundary measure: leaf keys that occurred in compared messages)
         try:
             _, _, leaves = refmodel.prescan(refmodel.tables()[0][identity])
@@ -247,6 +259,12 @@ GATES_ZERO = ["leaf_fields_uncovered"]
 
 def replay(ctx, p):
     monitors.install_field_monitor()
+    if p.get("kind") == "pinned":
+        from vf.checks import c10
+
+        c10.pinned_case(ctx, p["identity"], p["vstrat"], p["cstrat"], p["mstrat"], p["seedtag"],
+                        mech="standard-representation-mismatch")
+        return
     if p.get("wide"):
         wide_mask_case(ctx, p["identity"], p["seedtag"])
         return
